@@ -15,7 +15,9 @@ HANDLERS = {}
 
 def build_mac():
     target = os.path.join(CACHE, "target-mac")
-    binp = os.path.join(target, "debug", "mac")
+    built = os.path.join(target, "debug", "mac")
+    os.makedirs(os.path.join(tdir(), "bin"), exist_ok=True)
+    binp = os.path.join(tdir(), "bin", "mac")      # per-tree copy, see engine.build_rt
     marker = os.path.join(tdir(), "mac-build.json")
     with Lock("cargo-mac"):
         if os.path.exists(marker):
@@ -27,6 +29,8 @@ def build_mac():
         shutil.copy(os.path.join(REPO, "Cargo.lock"), os.path.join(hdir, "Cargo.lock"))
         env = dict(ENV, CARGO_TARGET_DIR=target, RUSTFLAGS="-Awarnings")
         rc, out = sh(["cargo", "build", "--offline"], cwd=hdir, env=env, timeout=3600)
+        if rc == 0:
+            shutil.copy2(built, binp)
         r = {"ok": rc == 0, "bin": binp, "wall_s": round(time.time() - t0, 1), "log_tail": out[-4000:]}
         json.dump(r, open(marker, "w"))
         return r
@@ -41,7 +45,7 @@ def run_mac_lines(lines, workdir):
     p = subprocess.run([b["bin"], "run", f], stdout=subprocess.PIPE, stderr=subprocess.PIPE, text=True, env=ENV)
     impl = p.stdout.splitlines()
     with open(f) as fh:
-        m = subprocess.run([MODEL_BIN, "mac"], stdin=fh, stdout=subprocess.PIPE, stderr=subprocess.PIPE, text=True)
+        m = subprocess.run([engine.model_bin(), "mac"], stdin=fh, stdout=subprocess.PIPE, stderr=subprocess.PIPE, text=True)
     model = m.stdout.splitlines()
     err = None
     if p.returncode != 0:
